@@ -73,6 +73,62 @@ def z3_check(assertions, timeout_s, seed=0):
     return Result(r, solver='z3', secs=dt, msg=s.reason_unknown() if r == 'unknown' else '')
 
 
+_CVC5 = None
+
+
+def cvc5_inproc(assertions, timeout_ms):
+    """cvc5 (python API, in process) on the SMT-LIB2 rendering of the assertions.
+    -> (status, {name: python value})   status in sat/unsat/unknown"""
+    global _CVC5
+    if _CVC5 is None:
+        import cvc5 as _c
+        _CVC5 = _c
+    cvc5 = _CVC5
+    s = z3.Solver()
+    s.add(*assertions)
+    text = s.to_smt2()
+    t = time.time()
+    STATS['cvc5_queries'] += 1
+    try:
+        slv = cvc5.Solver()
+        slv.setOption('strings-exp', 'true')
+        slv.setOption('produce-models', 'true')
+        slv.setOption('tlimit-per', str(int(timeout_ms)))
+        slv.setLogic('ALL')
+        sm = cvc5.SymbolManager(slv.getTermManager()) if hasattr(slv, 'getTermManager') \
+            else cvc5.SymbolManager(slv)
+        p = cvc5.InputParser(slv, sm)
+        p.setStringInput(cvc5.InputLanguage.SMT_LIB_2_6, text, 'q')
+        status = None
+        while True:
+            cmd = p.nextCommand()
+            if cmd.isNull():
+                break
+            out = cmd.invoke(slv, sm).strip()
+            if out in ('sat', 'unsat', 'unknown'):
+                status = out
+            elif 'error' in out.lower():
+                return 'unknown', {}
+        model = {}
+        if status == 'sat':
+            for tm in sm.getDeclaredTerms():
+                so = tm.getSort()
+                if so.isFunction():
+                    continue
+                v = slv.getValue(tm)
+                if so.isInteger():
+                    model[str(tm)] = int(str(v).replace('(- ', '-').replace(')', ''))
+                elif so.isBoolean():
+                    model[str(tm)] = v.getBooleanValue()
+                elif so.isString():
+                    model[str(tm)] = v.getStringValue()
+        return status or 'unknown', model
+    except Exception:
+        return 'unknown', {}
+    finally:
+        STATS['cvc5_time'] += time.time() - t
+
+
 class Cvc5Worker:
     def __init__(self):
         self.p = None
